@@ -12,3 +12,13 @@ import Solvor.Cut.Theorems
 #print axioms Solvor.Cut.dual_bound_le_opt
 #print axioms Solvor.Cut.dual_bound_cols
 #print axioms Solvor.Cut.optimal_claim_sound
+#print axioms Solvor.Cut.cg_mirror_valid
+#print axioms Solvor.Cut.cg_mirror_optimal_of_duals
+#print axioms Solvor.Cut.cg_mirror_optimal_of_bound
+#print axioms Solvor.Cut.cg_custom_mirror_valid_partial
+#print axioms Solvor.Cut.cg_custom_mirror_optimal_of_duals
+#print axioms Solvor.Cut.master_lp_value_is_dual_value
+#print axioms Solvor.Cut.bp_status_rule
+#print axioms Solvor.Cut.bp_optimal_core
+#print axioms Solvor.Cut.bp_mirror_optimal_of_duals
+#print axioms Solvor.Cut.bp_custom_mirror_optimal_of_duals
